@@ -148,8 +148,14 @@ def _navigation(prog, rep):
     fails = [s for s in _stmts(w) if isinstance(s, ast.If) and any(isinstance(x, ast.Break) for x in s.body)]
     okf = len(fails) == 2
     for s in fails:
-        bb = [norm(x) for x in s.body]
-        okf = okf and sorted(bb[:-1]) == sorted('%s = np.inf' % a for a in acc) and bb[-1] == 'break'
+        set_inf = set()
+        other = []
+        for x in s.body[:-1]:
+            if isinstance(x, ast.Assign) and norm(x.value) in ('np.inf', "float('inf')") and all(isinstance(t, ast.Name) for t in x.targets):
+                set_inf |= {t.id for t in x.targets}       # chained targets a = b = c = np.inf count for each name
+            else:
+                other.append(x)
+        okf = okf and set_inf == set(acc) and not other and isinstance(s.body[-1], ast.Break)
     rep.ob('N.failure-sets-all-three-lengths-to-inf', f, '; '.join(norm(s.test) for s in fails), okf,
            'a failed navigation (dead end, back-step, hop limit) must report inf in all three length matrices and stop', line=w.lineno)
     if len(fails) == 2:
@@ -220,5 +226,9 @@ def variants(root):
     B('any node may be next', nv, 'neighbors, = np.where(L[curr_node, :] != 0)', 'neighbors, = np.where(D[curr_node, :] != 0)', 'N.next-node')
     B('success ratio counts the diagonal', nv, 'sr = 1 - (len(inf_ixes) - n)/(n**2 - n)', 'sr = 1 - len(inf_ixes)/(n**2 - n)', 'N.success')
     B('path recorded for transposed pair', nv, 'paths[(i, j)] = curr_paths', 'paths[(j, i)] = curr_paths', 'N.results')
+    N('failure block as chained assignment', nv, '                    pl_bin = np.inf\n                    pl_wei = np.inf\n                    pl_dis = np.inf\n                    break\n\n                curr_paths',
+      '                    pl_bin = pl_wei = pl_dis = np.inf\n                    break\n\n                curr_paths')
+    B('dead end keeps distance counter finite', nv, '                    pl_bin = np.inf\n                    pl_wei = np.inf\n                    pl_dis = np.inf\n                    break\n\n                min_ix',
+      '                    pl_bin = pl_wei = np.inf\n                    break\n\n                min_ix', 'N.failure-sets')
     N('n*n spelling', nv, 'sr = 1 - (len(inf_ixes) - n)/(n**2 - n)', 'sr = 1 - (len(inf_ixes) - n) / (n * n - n)')
     return out
